@@ -278,7 +278,7 @@ func (a actCfg) modelM() float64 {
 
 func actConfigs(rank int) []actCfg {
 	out := []actCfg{{kind: "Relu"}, {kind: "Sigmoid"}, {kind: "Tanh"}, {kind: "LeakyRelu", nilCfg: true}}
-	for _, m := range []float64{0, 0.3, 1, -0.5, 1.5, 4, -2} {
+	for _, m := range []float64{0, 0.3, 1, -0.5, 1.5, 4, -2, 0.123456789, 1e-50} {
 		out = append(out, actCfg{kind: "LeakyRelu", m: m})
 	}
 	if rank >= 1 {
